@@ -51,6 +51,11 @@ POINTS = [Fraction(0), Fraction(1), Fraction(-1), Fraction(2), Fraction(1, 2), F
           Fraction(7, 3)]
 
 
+SCALE_COEFS = [Fraction(10 ** 12), Fraction(1, 10 ** 15), 1 + Fraction(1, 2 ** 40), 1 - Fraction(1, 2 ** 40),
+               Fraction(-1, 10 ** 7), -1 - Fraction(1, 2 ** 40)]
+SCALE_POINTS = [Fraction(1, 2 ** 40), Fraction(-1, 2 ** 40), Fraction(10 ** 6), 1 + Fraction(1, 2 ** 40), Fraction(1, 10 ** 7)]
+
+
 def fr(x):
   x = Fraction(x)
   return [x.numerator, x.denominator]
@@ -77,6 +82,8 @@ def rand_pairs(rng, ty="q", lo=-4, hi=6, maxterms=5, zeros=True, dups=True, mint
   for _ in range(n):
     k = rng.randrange(lo, hi + 1)
     c = rng.choice(pool_for(ty))
+    if ty in ("q", "frac") and rng.random() < 0.04:
+      c = rng.choice(SCALE_COEFS)       # class (l): the ring laws are scale free; a hair away from the special value 1
     if zeros and rng.random() < 0.08:
       c = Fraction(0)
     res.append([k, fr(c)])
@@ -604,6 +611,8 @@ def gen_eval(tier, rng):
       p = rand_expr(rng, 2, "q", SAFE_OPS, -2, 3, negpow=False)
       qq = rand_expr(rng, 1, "q", SAFE_OPS, -2, 3, negpow=False)
     v = fr(rng.choice(POINTS + [Fraction(rng.randrange(-9, 10), rng.choice([1, 2, 3, 5]))]))
+    if i % 12 == 7:
+      v = fr(rng.choice(SCALE_POINTS))  # a hair away from the x = 0 shortcut, far-out points
     yield {"p": p, "q": qq, "v": v, "ty": "q", "tags": ["random", shape, "v=0" if v[0] == 0 else "v!=0"]}
 
 
